@@ -253,6 +253,39 @@ theorem relay_failed_iff (o : Opts) (ls : List Line) :
       simp
   · simp [hx, Outcome.isFailed]
 
+/-- a summary line as addons print it -/
+def mkSummary (name : Str) : ObjLine :=
+  { fields := [("summary".toList, .str name), ("data".toList, .other)], loc := .absent, metric := none }
+
+theorem summaryObjs_all_summaries (o : Opts) : ∀ names : List Str,
+    summaryObjs o (names.map mkSummary) = names.map mkSummary := by
+  intro names
+  induction names with
+  | nil => rfl
+  | cons n r ih => simp [summaryObjs, mkSummary, has, lookup] at *; exact ih
+
+theorem validate_objs (objs : List ObjLine) : validate (objs.map Line.obj) = some objs := by
+  induction objs with
+  | nil => rfl
+  | cons o r ih => simp [validate, ih]
+
+/-- **summaries of every addon reach whole-program analysis**: when each of any number of addons
+    prints only summary lines (any number each) and exits 0, the ctu-info of the file is the
+    concatenation of all of them, in addon order — nothing of an earlier addon is lost -/
+theorem ctuInfo_all_addons (o : Opts) (hx : o.exitcode = 0) (outs : List (List Str)) :
+    ctuInfo o (outs.map fun names => (names.map mkSummary).map Line.obj) = (outs.flatMap id).map mkSummary := by
+  induction outs with
+  | nil => rfl
+  | cons names r ih =>
+    simp only [ctuInfo, List.map_cons, List.flatMap_cons] at *
+    rw [ih]
+    have h1 : summaries o ((names.map mkSummary).map Line.obj) = names.map mkSummary := by
+      simp only [summaries, hx, ne_eq, not_true_eq_false, if_false]
+      rw [validate_objs]
+      exact summaryObjs_all_summaries o names
+    simp only [List.map_map] at h1 ⊢
+    simp [h1]
+
 /-! non-vacuity -/
 def optsAll : Opts := ⟨fun _ => true, 0⟩
 example : reportable optsAll "style".toList = true := by decide
